@@ -112,6 +112,7 @@ impl Uplinks {
             value_uplinks,
             supply_uplinks,
             map_uplinks,
+            write_queue,
             special_queue,
             ..
         } = self;
@@ -124,6 +125,9 @@ impl Uplinks {
                 value_uplinks.remove(lane_id);
                 supply_uplinks.remove(lane_id);
                 map_uplinks.remove(lane_id);
+                // The removed uplinks may still be scheduled; a stale entry would be mistaken
+                // for a pending write if the lane is linked again before it is popped.
+                write_queue.retain(|(_, id)| id != lane_id);
             }
             special_queue.push_back(action);
             None
